@@ -36,6 +36,9 @@ OUT="${VERIF_OUT:-$ROOT}"
 LOG="$OUT/replays/$PROP/last-$TIER.log"
 mkdir -p "$OUT/replays/$PROP"
 LIMIT=2400; [ "$TIER" = "thorough" ] && LIMIT=14400
+# cap the address space: a modified /repo may decode a corrupted extent and try to allocate it (the sandbox has
+# no memory limit of its own). The -race binary of the C17 thorough pass needs a huge virtual range, so no cap there.
+if ! { [ "$PROP" = "C17" ] && [ "$TIER" = "thorough" ]; }; then ulimit -v 33554432; fi
 timeout -k 10 $LIMIT ./bin/$(basename $BIN) check "$PROP" "$TIER" > "$LOG" 2>&1
 rc=$?
 # show the verdict lines (and a bounded amount of detail)
